@@ -85,6 +85,14 @@ One can reverse a captured panic stack trace as follows:
 					addHashedWithPackage(node.Name.Name)
 				case *ast.TypeSpec:
 					addHashedWithPackage(node.Name.Name)
+				case *ast.ValueSpec:
+					// Package-level variables and constants are obfuscated and listed
+					// by "garble map" as well; they show up in linker and runtime errors.
+					for _, name := range node.Names {
+						if obj := tf.info.ObjectOf(name); obj != nil && obj.Parent() == tf.pkg.Scope() {
+							addHashedWithPackage(name.Name)
+						}
+					}
 				case *ast.Field:
 					for _, name := range node.Names {
 						obj, _ := tf.info.ObjectOf(name).(*types.Var)
